@@ -38,10 +38,12 @@ CHECKS["C01"] = {
           "activation function and scalar or per-unit leak rate, the documented law with zero noise gains: internal x' = (1-lr)x + lr f(W x + Win u + b [+ Wfb g(y)]); external s' = (1-lr)s + lr(W x + ...), "
           "x' = f(s'); at every step of a run by induction over the input list; scalar lr = constant vector; Win with a bias column = split (bias, Win'); run(xs++ys) = run ys after run xs; noise draws "
           "irrelevant at gain 0. The model is tied to the code on every run by executing both on seeded scenarios (dense/csr/csc W, seeded initialisers read back, bias on/off/in Win, both equations, "
-          "exact and named activations via a recorded table, feedback stand-alone and inside a Model, from_state) and comparing inside Coq; a numpy oracle recomputes each step from the node's matrices.",
+          "exact and named activations via a recorded table, feedback stand-alone and inside a Model, from_state) and comparing inside Coq; a numpy oracle recomputes each step from the node's matrices."
+          " The kernels reservoir_kernel / forward_internal / forward_external / noise are ALSO translated from the current source text on every run (tools/vlib/py2coq_la.py -> coq/gen/Gen_reservoir.v) and proved equal to the model (theorems C01_generated_*), and the generated code is executed at Q against the observations.",
   "note": "Trusted: Coq kernel; the hand-written model coq/model/Reservoir.v as a rendering of nodes/reservoirs/base.py (tie is correspondence only); the harness; named activations treated as "
-          "uninterpreted functions (their values are C18); float64 within 1e-9 of exact on small dyadic data. Not decided: float rounding, the random initialisers themselves (C13/C14), feedback timing (C05).",
-  "technique": "Coq proof (list induction, index-level sums) about an executable Gallina model polymorphic over a Num class (R for theorems, Q for vm_compute execution) + model-vs-code correspondence + implementation oracle",
+          "uninterpreted functions (their values are C18); float64 within 1e-9 of exact on small dyadic data. Not decided: float rounding, the random initialisers themselves (C13/C14), feedback timing (C05)."
+          "; the fail-closed kernel translator tools/vlib/py2coq_la.py + la_specs.py",
+  "technique": "Coq proof (list induction, index-level sums) about an executable Gallina model polymorphic over a Num class (R for theorems, Q for vm_compute execution) + model-vs-code correspondence + implementation oracle + source-translated kernels proved equal to the model (translator tie)",
 }
 CHECKS["C15"] = {
   "text": "Machine-checked theorems (coq/props/C15.v) on the same model as C01: for every element-wise 1-Lipschitz activation, scalar leak rate a in [0,1], W with |Wv| <= sigma|v|, and all Win, bias, "
@@ -49,9 +51,11 @@ CHECKS["C15"] = {
           "and the initial state is forgotten (below any eps after N steps uniformly in the inputs); activations with values in [-1,1] and lr in [0,1] (scalar or per-unit) keep [-1,1]^n invariant for every "
           "input; tanh (stdlib sinh/cosh, MVT), relu, identity and hard-tanh are proved to satisfy the hypotheses; the Frobenius norm is proved to bound sigma. Each run executes pairs of real Reservoir "
           "trajectories, has Coq confirm model = observed, certify sigma and check the inequality exactly at Q; an oracle checks the inequality at every step on SVD-rescaled reservoirs with "
-          "tanh/relu/identity and inputs up to 1e6.",
-  "note": "Contraction is proved for the 'internal' equation with a scalar leak rate (what the property states). Trusted: as C01, plus numpy SVD in the oracle only; the oracle's slack models float64 rounding of the pre-activation.",
-  "technique": "Coq proof over R (finite sums, Cauchy-Schwarz, stdlib MVT for tanh) + exact rational evaluation of the same model on real trajectories",
+          "tanh/relu/identity and inputs up to 1e6."
+          " The contraction is also stated about forward_internal as translated from the current source on every run (C15_generated_step_contraction; coq/gen/Gen_reservoir.v).",
+  "note": "Contraction is proved for the 'internal' equation with a scalar leak rate (what the property states). Trusted: as C01, plus numpy SVD in the oracle only; the oracle's slack models float64 rounding of the pre-activation."
+          "; the fail-closed kernel translator tools/vlib/py2coq_la.py",
+  "technique": "Coq proof over R (finite sums, Cauchy-Schwarz, stdlib MVT for tanh) + exact rational evaluation of the same model on real trajectories + source-translated kernel (translator tie)",
 }
 CHECKS["C19"] = {
   "text": "Machine-checked theorems (coq/props/C19.v) about an executable model of observables.py: mse is (1/n)Sum(y-yhat)^2 for every length; rmse^2 = mse; R^2 is 1 for a perfect prediction and 0 for the "
@@ -98,20 +102,24 @@ CHECKS["C04"] = {
           "Gram sums over the retained rows; any parameters satisfying (XXT+lambda I)W=YXT^T are, for lambda>0, the unique minimiser of Sum_retained|W^T x+b-y|^2+lambda(|W|^2+|b|^2) (per output coordinate and in total); "
           "XXT+lambda I has a trivial kernel, so under the stated LAPACK oracle the fitted Wout/bias satisfy the normal equations and are that minimiser; prediction is Wout^T x+bias; the first `warmup` rows of every "
           "sequence do not influence the result. Each run ties the model to the code on seeded datasets (2-D, 3-D, ragged) by comparing Wout, bias and predictions and re-checking the normal equations on the observed "
-          "parameters; an exact-rational oracle checks residual, perturbation optimality, warm-up independence and affinity on the real node.",
+          "parameters; an exact-rational oracle checks residual, perturbation optimality, warm-up independence and affinity on the real node."
+          " partial_backward / _accumulate / backward / _solve_ridge / readout_forward are ALSO translated from the current source text on every run (coq/gen/Gen_ridge.v) and proved equal to the model for every Num instance (C04_generated_*).",
   "note": "Trusted: Coq kernel; hand-written model coq/model/Ridge.v as a rendering of ridge.py / readouts/base.py / Node.partial_fit / add_bias; scipy.linalg.solve as Section Variable + hypothesis solve_spec (used only by "
           "C04_normal_equations / C04_optimal / C04_optimal_total / C04_unique; the core optimality theorems and the per-run normal-equation check on observed values do not use it); float64 rounding within 1e-9 "
-          "(lambda >= 1/8, small dyadic data); fresh node per fit, single process.",
-  "technique": "Coq proof (index-level finite-sum algebra for the ridge gap identity + list-level bridge by induction over sequences/rows) about an executable Gallina model; model-vs-code correspondence by vm_compute over Q with Gauss-Jordan; exact-rational implementation oracle",
+          "(lambda >= 1/8, small dyadic data); fresh node per fit, single process."
+          "; the fail-closed kernel translator tools/vlib/py2coq_la.py + la_specs.py (add_bias is a pinned primitive)",
+  "technique": "Coq proof (index-level finite-sum algebra for the ridge gap identity + list-level bridge by induction over sequences/rows) about an executable Gallina model; model-vs-code correspondence by vm_compute over Q with Gauss-Jordan; exact-rational implementation oracle + source-translated kernels proved equal to the model (translator tie)",
 }
 CHECKS["C10"] = {
   "text": "Machine-checked theorems (coq/props/C10.v): RLS from zero weights equals the ridge(lambda=alpha) solution on the samples selected by learn_every and P is the inverse regularised covariance (denominators proved "
           "positive from a PSD invariant, for any list of successive train calls); LMS performs w - alpha_k(yhat-y)x~^T with the schedule consumed once per update, never on skipped steps; the train loop updates exactly on "
           "i mod learn_every = 0 and returns pre-update predictions; IP applies the documented tanh/sigmoid gradient step once per timestep, sequence, epoch, in that order. The model is run at Q against real RLS/LMS/FORCE/"
-          "IPReservoir nodes on every run; an exact-Fraction ridge / explicit-loop oracle checks the real nodes directly.",
-  "note": "Model hand-written (not translated); FORCE covered by correspondence only; IP activation values are recorded from the run (tanh/exp not evaluated in Coq; y=f(a x+b) checked by the Python oracle); default zero "
-          "initial weights; noise gains 0; RLS alpha in [1/4, 4] and LMS rates <= 1/8 in scenarios. Trusted: Coq kernel + Reals axioms, coq/model/Online.v, harness tools/props/c10.py.",
-  "technique": "Coq proof over R (Sherman-Morrison + normal equations at index level on BSum, PSD invariant for the denominators; list induction for loop/gate/cursor/IP order) + Q-executed model vs real nodes (1e-9) + exact Fraction ridge / explicit-loop oracle",
+          "IPReservoir nodes on every run; an exact-Fraction ridge / explicit-loop oracle checks the real nodes directly."
+          " _rls, _lms, the two train functions and the readout helpers of readouts/base.py are ALSO translated from the current source text on every run (coq/gen/Gen_online.v), proved equal to the model (C10_generated_*), and executed at Q inside the same train loop against the real nodes.",
+  "note": "IP / train-loop model hand-written (the RLS / LMS rules and readout helpers are additionally translated, see text); FORCE covered by correspondence only; IP activation values are recorded from the run (tanh/exp not evaluated in Coq; y=f(a x+b) checked by the Python oracle); default zero "
+          "initial weights; noise gains 0; RLS alpha in [1/4, 4] and LMS rates <= 1/8 in scenarios. Trusted: Coq kernel + Reals axioms, coq/model/Online.v, harness tools/props/c10.py."
+          "; the fail-closed kernel translator tools/vlib/py2coq_la.py + la_specs.py (add_bias is a pinned primitive)",
+  "technique": "Coq proof over R (Sherman-Morrison + normal equations at index level on BSum, PSD invariant for the denominators; list induction for loop/gate/cursor/IP order) + Q-executed model vs real nodes (1e-9) + exact Fraction ridge / explicit-loop oracle + source-translated update rules proved equal to the model (translator tie)",
 }
 CHECKS["C14"] = {
   "text": "Machine-checked theorems (coq/props/C14.v, closed under the global context) about a provenance semantics of reservoirpy's seed plumbing "
@@ -172,11 +180,13 @@ CHECKS["C09"] = {
          "pre-fix legacy trainers). Sorting any permutation of the (index, result) pairs by index returns the results in input order (_sort_and_unpack). Data level: the executable model of partial_fit/_accumulate fills XXT, YXT with "
          "numbers that depend only on the multiset of retained (input, target) rows, whatever the split into sequences, their order, the grouping into partial fits and the warm-ups. Tied to the code on every run: Ridge on one array / "
          "lists in several orders / partial-fit groupings (buffers read back), ESN.fit over worker counts and backends, legacy compat ESN.train and RidgeRegression.fit, ESN.run on lists; observed Wout, bias, buffers and the logged "
-         "accumulation schedules are checked inside Coq against the model (exact rational solve; schedules replayed through the transition system).",
- "note": "No hook in /repo: the harness injects probe accumulators (ndarray subclass with a non-atomic += and a seeded dwell) in place of the shared buffers; this observes mutual exclusion for the threading/sequential backends only. "
+         "accumulation schedules are checked inside Coq against the model (exact rational solve; schedules replayed through the transition system)."
+          " The critical section is tied to the source: in the code translated from ridge.py on every run a worker's effect on the shared buffers is XXT += c; YXT += d with (c, d) a function of its own sequence only, with or without the lock (C09_generated_worker_adds_its_own_contribution).",
+  "note": "No hook in /repo: the harness injects probe accumulators (ndarray subclass with a non-atomic += and a seeded dwell) in place of the shared buffers; this observes mutual exclusion for the threading/sequential backends only. "
          "For loky/multiprocessing only final Wout/bias are compared; real interleavings, memmap coherence between processes and joblib pickling are outside the model (partial). Trusted: Coq kernel, Reals axioms for the data-level "
-         "theorem only, the hand-written models Conc.v/BatchAcc.v, the probe, LA.qsolve standing for scipy.linalg.solve, reservoir states taken from a twin Reservoir run (C01).",
- "technique": "Coq proof (lock invariant preserved by every step of every schedule; permutation/regrouping invariance of sums over a commutative monoid; uniqueness of a sorted permutation) + replay of observed schedules and data sets through the same executable model by vm_compute + implementation oracle",
+         "theorem only, the hand-written models Conc.v/BatchAcc.v, the probe, LA.qsolve standing for scipy.linalg.solve, reservoir states taken from a twin Reservoir run (C01)."
+          "; the fail-closed kernel translator tools/vlib/py2coq_la.py",
+  "technique": "Coq proof (lock invariant preserved by every step of every schedule; permutation/regrouping invariance of sums over a commutative monoid; uniqueness of a sorted permutation) + replay of observed schedules and data sets through the same executable model by vm_compute + implementation oracle + source-translated accumulation (translator tie)",
 }
 
 CHECKS["C16"] = {
